@@ -111,3 +111,27 @@ Example C18_object_type_example :
                                                      PDict [("name", PStr "amount"); ("type", PStr "numeric"); ("size", PTuple [PInt 10; PInt 2])]])]);
          ("base_type", PStr "object")].
 Proof. vm_compute. repeat split. Qed.
+
+(* ---------- CREATE SCHEMA with AUTHORIZATION / COMMENT -----------------------------------------------------------------------------------------
+   For EVERY statement  CREATE SCHEMA [IF NOT EXISTS] n [AUTHORIZATION u] [COMMENT [=] 'text']  (IF NOT EXISTS and AUTHORIZATION do
+   not combine in the grammar) — keywords in any letter case, n and u plain words, both normalize_names settings, silent or not —
+   the model returns exactly one schema entity: the name, the if_not_exists flag, the authorization as written, the comment literal
+   verbatim (18-configuration closed invariant on the real tables, all nine forms by case analysis, Proofs/SchemaXProofs.v);
+   every output mode reports it unchanged. *)
+From SDP Require SchemaX SchemaXProofs.
+Theorem C18_schema_authorization_comment_exact : forall x norm silent, SchemaX.wf norm x = true ->
+  parse_lexemes norm silent (SchemaX.lexemes x) = Ok (Some (SchemaX.denote norm x)).
+Proof. exact SchemaXProofs.schx_parse. Qed.
+Print Assumptions C18_schema_authorization_comment_exact.
+Theorem C18_schema_reported_unchanged : forall x norm m, In m Tokens.modes ->
+  exists e, SchemaX.denote norm x = PDict e /\ Output.format m false [PDict e] = Ok (PList [PDict e]).
+Proof. exact SchemaXProofs.schx_every_mode. Qed.
+Print Assumptions C18_schema_reported_unchanged.
+Example C18_schema_example :
+  SchemaX.wf false (SchemaX.mkSchX "create" "Schema" None "sales" (Some "Joe") (Some ("COMMENT", true, "'the sales schema'"))) = true /\
+  SchemaX.denote false (SchemaX.mkSchX "create" "Schema" None "sales" (Some "Joe") (Some ("COMMENT", true, "'the sales schema'"))) =
+  PDict [("schema_name", PStr "sales"); ("authorization", PStr "Joe"); ("comment", PStr "'the sales schema'")] /\
+  SchemaX.wf true (SchemaX.mkSchX "CREATE" "SCHEMA" (Some ("if", "Not", "EXISTS")) "[Dev]" None (Some ("comment", false, "'x'"))) = true /\
+  SchemaX.denote true (SchemaX.mkSchX "CREATE" "SCHEMA" (Some ("if", "Not", "EXISTS")) "[Dev]" None (Some ("comment", false, "'x'"))) =
+  PDict [("if_not_exists", PBool true); ("schema_name", PStr "Dev"); ("comment", PStr "'x'")].
+Proof. vm_compute. repeat split. Qed.
